@@ -153,7 +153,13 @@ static void op_sweep(void)
     OUT("]");
     if (un >= 0) { MPI_Offset l = -1; ncmpi_inq_dimlen(ncid, un, &l); OUT(",\"numrecs\":%lld", (long long)l); }
     /* mode fingerprint: zero-request wait / wait_all answer differently in define, collective and independent mode */
-    if (!arg("nomfp")) { int a = ncmpi_wait(ncid, 0, NULL, NULL), b = ncmpi_wait_all(ncid, 0, NULL, NULL); OUT(",\"mfp\":[%d,%d]", a, b); }
+    if (!arg("nomfp")) {
+        int a = ncmpi_wait(ncid, 0, NULL, NULL), b = ncmpi_wait_all(ncid, 0, NULL, NULL), c, d; MPI_Offset z[64]; char dummy[8];
+        memset(z, 0, sizeof z);
+        /* the same question asked of the dispatcher layer (it keeps its own copy of the mode): zero-length flexible reads of variable 0 */
+        c = ncmpi_get_vara(ncid, 0, z, z, dummy, 0, MPI_BYTE); d = ncmpi_get_vara_all(ncid, 0, z, z, dummy, 0, MPI_BYTE);
+        OUT(",\"mfp\":[%d,%d],\"mfp2\":[%d,%d]", a, b, c, d);
+    }
     OUT("}");
 }
 
